@@ -152,76 +152,109 @@ def chunked(v, name, typ, rows, n=400):
     v.append('Definition %s : list %s := %s.' % (name, typ, ' ++ '.join(parts + ['[]'])))
 
 
+class Shard:
+    """one generated case file; the evaluation is split over a few of them (coqc is single-threaded)"""
+    def __init__(self, name):
+        self.name = name
+        self.v = ['From Coq Require Import Uint63.', 'From Regal Require Import Check.C08Check.', 'Open Scope N_scope.']
+        self.defined, self.interned, self.marks = {}, {}, []
+
+    def orig(self, c, fi):
+        k = (c['id'], fi)
+        if k not in self.defined:
+            self.defined[k] = 't_%d_%d' % k
+            self.v.append('Definition %s : str := Eval vm_compute in %s.' % (self.defined[k], pstr(c['files'][fi]['text'])))
+        return self.defined[k]
+
+    def intern(self, prefix, typ, term):
+        if len(term) < 12:
+            return term
+        if (prefix, term) not in self.interned:
+            self.interned[(prefix, term)] = '%s_%d' % (prefix, len(self.interned))
+            self.v.append('Definition %s : %s := %s.' % (self.interned[(prefix, term)], typ, term))
+        return self.interned[(prefix, term)]
+
+    def texts_of(self, embv):
+        return clist('(%d, %s)' % (x['row'], self.intern('x', 'str', pstr(x['text']))) for x in embv if x['has_text'] and x['row'] > 0)
+
+    def failing(self, mark, fn, lst):
+        self.v.append('Definition %s := Eval vm_compute in failing %s 0 %s.' % (mark, fn, lst))
+        self.marks.append(mark)
+
+    def run(self, ctx, res):
+        try:
+            self.v.append(' '.join('Print %s.' % m for m in self.marks))
+            rc, out = vlib.coq_eval(ctx, self.name, '\n'.join(self.v), timeout=1500)
+            if rc != 0:
+                raise RuntimeError('case evaluation failed:\n' + out[-3000:])
+            r = {m: vlib.parse_nat_list(out, m) for m in self.marks}
+            if any(x is None for x in r.values()):
+                raise RuntimeError('cannot parse Coq output:\n' + out[-2000:])
+            res[self.name] = r
+        except BaseException as e:      # re-raised by the caller
+            res[self.name] = e
+
+
 def coq_check(ctx, items, digs=(), covers=(), name='Cases_C08'):
     """items:  [(case, file_index, emb, got_text, id_viols, emb_viols)]
        digs:   [(case, file_index, emb, {'len','hash'}, id_viols, emb_viols)]   (boundary shifts: text by digest)
        covers: [(case, file_index, nonblank_only, targets, shifts_used)]
-    -> index lists of the failing cases: text_agrees, rows_agree, texts_agree over items; dig_text_agrees,
-       dig_rows_agree, dig_texts_agree over digs; shifts_cover, rows_reach over covers"""
-    v = ['From Coq Require Import Uint63.', 'From Regal Require Import Check.C08Check.', 'Open Scope N_scope.']
-    defined, interned = {}, {}
-
-    def orig(c, fi):
-        k = (c['id'], fi)
-        if k not in defined:
-            defined[k] = 't_%d_%d' % k
-            v.append('Definition %s : str := Eval vm_compute in %s.' % (defined[k], pstr(c['files'][fi]['text'])))
-        return defined[k]
-
-    def intern(prefix, typ, term):
-        if len(term) < 12:
-            return term
-        if (prefix, term) not in interned:
-            interned[(prefix, term)] = '%s_%d' % (prefix, len(interned))
-            v.append('Definition %s : %s := %s.' % (interned[(prefix, term)], typ, term))
-        return interned[(prefix, term)]
-
-    def texts_of(embv):
-        return clist('(%d, %s)' % (x['row'], intern('x', 'str', pstr(x['text']))) for x in embv if x['has_text'] and x['row'] > 0)
-    rows = []
-    for (c, fi, emb, got, idv, embv) in items:
-        rows.append('{| e_orig := %s; e_ops := %s; e_got := %s; e_id := %s; e_emb := %s; e_texts := %s |}' % (
-            orig(c, fi), coq_ops(emb), pstr(got), locs(idv), locs(embv), texts_of(embv)))
-    drows = []
-    for (c, fi, emb, dg, idv, embv) in digs:
-        drows.append('{| d_orig := %s; d_ops := %s; d_len := %d; d_hash := %d%%uint63; d_id := %s; d_emb := %s; d_texts := %s |}' % (
-            orig(c, fi), coq_ops(emb), dg['len'], dg['hash'], intern('L', 'list loc', locs(idv)), locs(embv), texts_of(embv)))
-    crows = []
-    for (c, fi, nonblank, targets, used) in covers:
-        crows.append('{| c_text := %s; c_nonblank := %s; c_targets := %s; c_used := %s |}' % (
-            orig(c, fi), vlib.cbool(nonblank), clist('%d%%nat' % t for t in targets), clist('%d%%nat' % k for k in used)))
-    chunked(v, 'cases', 'emb_case', rows)
-    chunked(v, 'dcases', 'dig_case', drows)
-    chunked(v, 'ccases', 'cover_case', crows)
-    v.append('Definition R1 := Eval vm_compute in failing text_agrees 0 cases.')
-    v.append('Definition R2 := Eval vm_compute in failing rows_agree 0 cases.')
-    v.append('Definition R3 := Eval vm_compute in failing texts_agree 0 cases.')
-    v.append('Definition R5 := Eval vm_compute in failing dig_text_agrees 0 dcases.')
-    v.append('Definition R6 := Eval vm_compute in failing dig_rows_agree 0 dcases.')
-    v.append('Definition R7 := Eval vm_compute in failing dig_texts_agree 0 dcases.')
-    v.append('Definition R8 := Eval vm_compute in failing shifts_cover 0 ccases.')
-    v.append('Definition R9 := Eval vm_compute in failing rows_reach 0 ccases.')
-    marks = ['R1', 'R2', 'R3', 'R5', 'R6', 'R7', 'R8', 'R9']
+    -> index lists of the failing cases: text_agrees, rows_agree, texts_agree over items (R1-R3); dig_text_agrees,
+       dig_rows_agree, dig_texts_agree over digs (R5-R7); shifts_cover, rows_reach over covers (R8, R9)"""
+    import threading
+    shards = []
+    a = Shard(name + '_full')
+    chunked(a.v, 'cases', 'emb_case', [
+        '{| e_orig := %s; e_ops := %s; e_got := %s; e_id := %s; e_emb := %s; e_texts := %s |}' % (
+            a.orig(c, fi), coq_ops(emb), pstr(got), locs(idv), locs(embv), a.texts_of(embv))
+        for (c, fi, emb, got, idv, embv) in items])
+    a.failing('R1', 'text_agrees', 'cases')
+    a.failing('R2', 'rows_agree', 'cases')
+    a.failing('R3', 'texts_agree', 'cases')
+    shards.append((a, 0))
+    digs = list(digs)
+    nsh = 1 if len(digs) < 800 else (2 if len(digs) < 6000 else 4)
+    per = (len(digs) + nsh - 1) // nsh if digs else 0
+    for k in range(nsh if digs else 0):
+        b = Shard('%s_dig%d' % (name, k))
+        chunked(b.v, 'dcases', 'dig_case', [
+            '{| d_orig := %s; d_ops := %s; d_len := %d; d_hash := %d%%uint63; d_id := %s; d_emb := %s; d_texts := %s |}' % (
+                b.orig(c, fi), coq_ops(emb), dg['len'], dg['hash'], b.intern('L', 'list loc', locs(idv)), locs(embv), b.texts_of(embv))
+            for (c, fi, emb, dg, idv, embv) in digs[k * per:(k + 1) * per]])
+        b.failing('R5', 'dig_text_agrees', 'dcases')
+        b.failing('R6', 'dig_rows_agree', 'dcases')
+        b.failing('R7', 'dig_texts_agree', 'dcases')
+        shards.append((b, k * per))
+    cs = Shard(name + '_cover')
+    chunked(cs.v, 'ccases', 'cover_case', [
+        '{| c_text := %s; c_nonblank := %s; c_targets := %s; c_used := %s |}' % (
+            cs.orig(c, fi), vlib.cbool(nonblank), clist('%d%%nat' % t for t in targets), clist('%d%%nat' % k for k in used))
+        for (c, fi, nonblank, targets, used) in covers])
+    cs.failing('R8', 'shifts_cover', 'ccases')
+    cs.failing('R9', 'rows_reach', 'ccases')
     # self-test of the glue: a wrong digest, and a selection that lacks one shift, must be flagged
-    if drows:
+    if digs:
         c, fi, emb, dg, idv, embv = digs[0]
-        v.append('Definition S1 := Eval vm_compute in failing dig_text_agrees 0 [{| d_orig := %s; d_ops := %s; d_len := %d; '
-                 'd_hash := %d%%uint63; d_id := []; d_emb := []; d_texts := [] |}].' % (orig(c, fi), coq_ops(emb), dg['len'], dg['hash'] ^ 1))
-        marks.append('S1')
+        cs.failing('S1', 'dig_text_agrees', '[{| d_orig := %s; d_ops := %s; d_len := %d; d_hash := %d%%uint63; d_id := []; d_emb := []; '
+                   'd_texts := [] |}]' % (cs.orig(c, fi), coq_ops(emb), dg['len'], dg['hash'] ^ 1))
     pert = [x for x in covers if x[4]]
     if pert:
         c, fi, nonblank, targets, used = pert[0]
-        v.append('Definition S2 := Eval vm_compute in failing (fun c => shifts_cover c && rows_reach c) 0 [{| c_text := %s; '
-                 'c_nonblank := %s; c_targets := %s; c_used := %s |}].' % (
-                     orig(c, fi), vlib.cbool(nonblank), clist('%d%%nat' % t for t in targets), clist('%d%%nat' % k for k in used[1:])))
-        marks.append('S2')
-    v.append(' '.join('Print %s.' % m for m in marks))
-    rc, out = vlib.coq_eval(ctx, name, '\n'.join(v), timeout=1500)
-    if rc != 0:
-        raise RuntimeError('case evaluation failed:\n' + out[-3000:])
-    r = {m: vlib.parse_nat_list(out, m) for m in marks}
-    if any(x is None for x in r.values()):
-        raise RuntimeError('cannot parse Coq output:\n' + out[-2000:])
+        cs.failing('S2', '(fun c => shifts_cover c && rows_reach c)', '[{| c_text := %s; c_nonblank := %s; c_targets := %s; c_used := %s |}]' % (
+            cs.orig(c, fi), vlib.cbool(nonblank), clist('%d%%nat' % t for t in targets), clist('%d%%nat' % k for k in used[1:])))
+    shards.append((cs, 0))
+    res, ths = {}, []
+    for sh, _ in shards:
+        ths.append(threading.Thread(target=sh.run, args=(ctx, res)))
+        ths[-1].start()
+    for t in ths:
+        t.join()
+    r = {m: [] for m in ('R1', 'R2', 'R3', 'R5', 'R6', 'R7', 'R8', 'R9')}
+    for sh, off in shards:
+        if isinstance(res[sh.name], BaseException):
+            raise res[sh.name]
+        for m, idx in res[sh.name].items():
+            r.setdefault(m, []).extend(off + i for i in idx)
     for m in ('S1', 'S2'):
         if m in r and r[m] != [0]:
             raise RuntimeError('self-test failed: a perturbed %s was not flagged by Check.C08Check' %
@@ -538,11 +571,16 @@ def run(ctx):
                 for r in lints}
     shift_res = [r for r in lints if r.get('shift')]
 
+    shifts_of = {}     # case id -> amounts k of the T<k> embeddings linted (or equal in text to an embedding that was)
+    for r in results:
+        if len(r['emb']) == 1 and r['emb'][0][0] == 'T':
+            shifts_of.setdefault(r['id'], set()).add(int(r['emb'][0][1:]))
+
     def crossing(t):
         """(example, row) pairs put on row t by some embedding that was linted"""
         n = 0
         for c in cases:
-            ks = {int(e[0][1:]) for (cid, e) in by if cid == c['id'] and len(e) == 1 and e[0][0] == 'T'} | {0}
+            ks = shifts_of.get(c['id'], set()) | {0}
             rows = max(len(f['text'].replace('\r\n', '\n').split('\n')) for f in c['files'])
             n += sum(1 for r in range(1, rows + 1) if t - r in ks)
         return n
